@@ -417,7 +417,8 @@ def member_to_cfg(m: Dict[str, Any]) -> Dict[str, Any]:
     if m["adminDecl"]:
         h1.setdefault("users", []).append({"username": "admin", "password": "changed", "is_admin": True})
     if int(m["files"]) >= 1:
-        h2["folders"] = [{"folder_name": "docs", "files": [{"file_name": "a.txt"}, {"file_name": "report.pdf", "size": 2048}]}]
+        h2["folders"] = [{"folder_name": "docs", "files": [{"file_name": "a.txt"}, {"file_name": "report.pdf", "size": 2048},
+                                                           {"file_name": "export.final.csv"}, {"file_name": "backup.2024.01.zip", "size": 77}]}]
     if int(m["files"]) >= 2:
         h2["folders"] += [{"folder_name": "empty_folder"}, {"folder_name": "root", "files": [{"file_name": "secret", "size": 663, "type": "TXT"}]}]
     bw = int(m["bw"]) or None
